@@ -2,6 +2,7 @@ package logqlmetric
 
 import (
 	"container/heap"
+	"math"
 	"slices"
 
 	"github.com/go-faster/errors"
@@ -171,7 +172,9 @@ func (i *vectorAggHeapIterator) Next(r *Step) bool {
 		case g.heap.Len() < i.limit:
 			// Heap is not full, just push.
 			heap.Push(g.heap, s)
-		case i.less(s, g.heap.Min()):
+		case math.IsNaN(s.Data):
+			// NaN never replaces a sample in a full heap.
+		case math.IsNaN(g.heap.Min().Data) || i.less(s, g.heap.Min()):
 			// Heap is full, but new element is smaller than biggest in heap, so remove the old and add new.
 			heap.Pop(g.heap)
 			heap.Push(g.heap, s)
